@@ -607,6 +607,7 @@ asn_REAL2double(const REAL_t *st, double *dbl_value) {
 			return -1;
 		}
 		/* FIXME: verify constraints of case d) */
+		elen--;	/* As in cases a) to c): exponent octets after the first */
 		ptr = &st->buf[2];
 	} else {
 		ptr = &st->buf[1];
